@@ -27,6 +27,7 @@ def families(tier):
     yield from G.f9_functions()
     yield from G.f7b_traced()
     yield from G.f10_sizes()
+    yield from G.f11_definite_assignment()
 
 
 def programs(tier):
@@ -37,7 +38,7 @@ def programs(tier):
             if src is None:
                 continue
             for ctx, text in (("module", src), ("def", G.wrap_def(src))):
-                if fam in ("F5", "F6", "F7b") and ctx == "def" and fam != "F7b":
+                if fam in ("F5", "F6", "F7b", "F11") and ctx == "def" and fam != "F7b":
                     continue  # these families place their own defs
                 if text in seen:
                     continue
